@@ -296,9 +296,9 @@ func init() {
 
 func TestC14(t *testing.T) {
 	a := c14Hist
-	a.Checks = n(250, 10000)
+	a.Checks = n(250, 3000)
 	a.Run(t)
 	b := c14Conc
-	b.Checks = n(50, 2000)
+	b.Checks = n(50, 600)
 	b.Run(t)
 }
